@@ -13,7 +13,14 @@
 //@@ include algmod.rs
 //@@ include opspec.rs
 //@@ include compact_lemmas.rs
-//@@ include cleanup_assumed.rs
+//@@ include opspec_lemmas.rs
+//@@ include cleanup.rs
 //@@ include compact.rs
 //@@ include common.rs
+//@@ props ^capture_diff : C02 C09 C11 C03
+//@@ props ^Compact::|^DiffHook for Compact:: : C02 C03 C09 C10 C11 C08
+//@@ props ^cleanup_diff_ops$|^shift_diff_ops_up$|^shift_diff_ops_down$ : C02 C03 C09 C10 C11 C05
+//@@ props ^Replace::|^DiffHook for Replace:: : C02 C03 C09 C10 C11
+//@@ props ^Capture::|^DiffHook for Capture:: : C02 C09 C11
+//@@ props ^DiffOp::apply_to_hook$|^DiffOp::(tag|old_range|new_range|as_tag_tuple|is_empty|shift_left|shift_right|grow_left|grow_right|shrink_left|shrink_right|adjust)$ : C02 C10 C11
 fn main() {}
